@@ -21,7 +21,16 @@
 (*      the tick after the press and up exactly T ticks later; the next key *)
 (*      is modified iff it arrives less than T ticks after the last         *)
 (*      one-shot press (O2/O4);                                             *)
-(*  O5  the output of a physically held one-shot key is not released;       *)
+(*  O5  the output of a physically held one-shot key is not released: at a  *)
+(*      quiescent point (idle twice in a row, nothing pending) the outputs  *)
+(*      of every one-shot key that is physically held as a plain press      *)
+(*      (not a cancelling re-press of the pcancel variants) are down;       *)
+(*  O2m release variants: a key pressed while the one-shot is certainly     *)
+(*      still active (activation began at a quiescent point; fewer than T   *)
+(*      ticks between the processing of the last one-shot press and the     *)
+(*      processing of this key; no key pressed after the activation has     *)
+(*      been released) is output with the one-shot applied - whatever keys  *)
+(*      pressed BEFORE the activation are released meanwhile;               *)
 (*  O7  never lingers: with no one-shot key held, every one-shot output is  *)
 (*      up within a bound after the last one-shot press.                    *)
 (***************************************************************************)
@@ -48,6 +57,10 @@ MonInit(p) ==
    afterAct |-> {},      \* other keys pressed after the activation and still down (release variants)
    ended |-> "yes",      \* "yes": the one-shot must not modify keys arriving from now on;
                          \* "no": it is active; "maybe": outside the sharp zone, unknown
+   plain |-> {},         \* held one-shot keys whose current press acts as a plain key (O5)
+   rsharp |-> FALSE,     \* the activation began at a quiescent point (O2m)
+   rel |-> 0,            \* ticks since the (estimated) processing of the last one-shot press (O2m)
+   lagq |-> 0,           \* upper bound on the number of inputs not yet processed by kanata
    pend |-> <<>>,        \* other-key presses not output yet: [o, clean, mod]
    down |-> {}, lastIdle |-> TRUE, quiet |-> p.red + 1, err |-> ""]
 
@@ -57,7 +70,7 @@ MonIn(m, r) ==
   ELSE
     LET p == m.p
         i == OsIdx(p, r.c)
-        m0 == [m EXCEPT !.quiet = 0, !.gapIn = @ + 1]
+        m0 == [m EXCEPT !.quiet = 0, !.gapIn = @ + 1, !.lagq = OMin(@ + 1, m.p.T + 2)]
         inSync == m.gapIn = 0
     IN IF i # 0
        THEN IF r.e = "d"
@@ -69,21 +82,25 @@ MonIn(m, r) ==
                      repress == IsPcancel(p) /\ i \in m.chain /\ ~over
                  IN
                  IF repress
-                 THEN [m0 EXCEPT !.held = @ \cup {i}, !.sharp = FALSE, !.el = 0,
+                 THEN [m0 EXCEPT !.held = @ \cup {i}, !.sharp = FALSE, !.el = 0, !.plain = @ \ {i}, !.rsharp = FALSE,
                                  !.ended = IF m.ended = "no" /\ m.sharp /\ inSync THEN "yes" ELSE "maybe"]
-                 ELSE [m0 EXCEPT !.held = @ \cup {i},
+                 ELSE [m0 EXCEPT !.held = @ \cup {i}, !.plain = @ \cup {i},
+                                 !.rel = 0 - m.lagq,
+                                 !.rsharp = IF over THEN m.lastIdle /\ m.quiet > p.red /\ m.pend = <<>> /\ m.lagq = 0
+                                            ELSE m.rsharp,
                                  !.chain = IF over THEN {i} ELSE @ \cup {i},
                                  !.el = 0, !.ended = "no", !.used = FALSE, !.afterAct = {},
                                  !.sharp = IF over
                                            THEN m.lastIdle /\ m.quiet > p.red /\ m.pend = <<>> /\ inSync
                                            ELSE m.sharp /\ inSync]
-            ELSE [m0 EXCEPT !.held = @ \ {i}, !.sharp = m.sharp /\ inSync]
+            ELSE [m0 EXCEPT !.held = @ \ {i}, !.plain = @ \ {i}, !.sharp = m.sharp /\ inSync]
        ELSE IF r.e = "d"
        THEN LET o == OutOf(p, r.c)
                 \* must this key come out unmodified?  (decided by what had arrived before it)
                 clean == m.held = {} /\ (m.ended = "yes" \/ (IsPress(p) /\ m.used))
                 \* must it come out modified?  (sharp zone only)
-                mod == m.ended = "no" /\ ~m.used /\ m.sharp /\ inSync /\ m.el < p.T /\ IsPress(p)
+                mod == \/ m.ended = "no" /\ ~m.used /\ m.sharp /\ inSync /\ m.el < p.T /\ IsPress(p)
+                       \/ ~IsPress(p) /\ m.ended = "no" /\ m.rsharp /\ m.rel + m.lagq < p.T
                 m1 == [m0 EXCEPT !.used = TRUE, !.afterAct = IF m.ended = "yes" THEN @ ELSE @ \cup {r.c},
                                  !.sharp = FALSE]
             IN IF o >= 0 THEN [m1 EXCEPT !.pend = Append(@, [o |-> o, clean |-> clean, mod |-> mod,
@@ -91,7 +108,7 @@ MonIn(m, r) ==
                ELSE m1
        ELSE \* release of an other key
             IF ~IsPress(p) /\ r.c \in m.afterAct /\ m.ended # "yes"
-            THEN [m0 EXCEPT !.ended = "yes", !.afterAct = {}, !.sharp = FALSE]
+            THEN [m0 EXCEPT !.ended = "yes", !.afterAct = {}, !.sharp = FALSE, !.rsharp = FALSE]
             ELSE [m0 EXCEPT !.afterAct = @ \ {r.c}, !.sharp = FALSE]
 
 RECURSIVE Scan(_, _)
@@ -136,18 +153,25 @@ MonTick(m, out, idle, cb) ==
               THEN Fail(m1, "C06 O7: a one-shot output lingers")
               ELSE IF idle /\ m1.pend # <<>>
               THEN Fail(m1, "C06: a pressed key was lost")
+              ELSE IF idle /\ m.lastIdle /\ m.gapIn = 0 /\ m1.pend = <<>> /\ ~(QOf(p, m.plain) \subseteq m1.down)
+              THEN Fail(m1, "C06 O5: the output of a physically held one-shot key was released")
               ELSE m1
+        \* kanata idle twice in a row with no input in between and no one-shot key held: no one-shot is active
+        stable == idle /\ m.lastIdle /\ m.gapIn = 0 /\ m.held = {}
         expired == T >= 1 + p.T /\ m.held = {} /\ sharpNow
     IN [m2 EXCEPT !.el = OMin(T, p.T + 2), !.gapIn = 0, !.lastIdle = idle,
-                  !.ended = IF expired THEN "yes" ELSE m2.ended,
-                  !.chain = IF expired THEN {} ELSE m2.chain,
+                  !.rel = OMin(m.rel + 1, p.T + 2), !.lagq = IF m.lagq > 0 THEN m.lagq - 1 ELSE 0,
+                  !.rsharp = m2.rsharp /\ ~expired /\ ~stable,
+                  !.ended = IF expired \/ stable THEN "yes" ELSE m2.ended,
+                  !.chain = IF expired \/ stable THEN {} ELSE m2.chain,
                   !.quiet = IF out = <<>> THEN OMin(m2.quiet + 1, p.red + 1) ELSE 0]
 
 RECURSIVE MonSilent(_, _, _, _)
 MonSilent(m, n, idle, cb) ==
   IF n = 0 \/ m.err # "" THEN m
-  ELSE IF m.el >= m.p.T + 2 /\ m.pend = <<>> /\ m.lastIdle = idle /\ idle
-          /\ m.quiet > m.p.red /\ m.gapIn = 0 /\ (m.held # {} \/ (AllQ(m.p) \cap m.down) = {})
+  ELSE IF m.el >= m.p.T + 2 /\ m.rel >= m.p.T + 2 /\ m.lagq = 0 /\ m.pend = <<>> /\ m.lastIdle = idle /\ idle
+          /\ m.quiet > m.p.red /\ m.gapIn = 0 /\ QOf(m.p, m.plain) \subseteq m.down
+          /\ (m.held # {} \/ ((AllQ(m.p) \cap m.down) = {} /\ m.ended = "yes"))
   THEN m
   ELSE MonSilent(MonTick(m, <<>>, idle, cb), n - 1, idle, cb)
 =============================================================================
